@@ -87,17 +87,38 @@ Poly = tuple  # ((monomial, coeff), ...)
 ONE_M = ()
 
 
+class _Coef(Fraction):
+    """Coefficient as stored inside terms: a Fraction that remembers its hash.  Terms are nested tuples, tuples do not cache
+    their hash, and Fraction.__hash__ is a Python-level modular inverse: without this, hashing terms dominates the run time."""
+    __slots__ = ("_h",)
+
+    def __new__(cls, v=0, d=None):
+        if d is None and type(v) is _Coef:
+            return v
+        return super().__new__(cls, v, d)
+
+    def __hash__(self):
+        try:
+            return self._h
+        except AttributeError:
+            self._h = h = Fraction.__hash__(self)
+            return h
+
+
 def _poly_from_dict(d: Dict[tuple, Fraction]) -> Poly:
-    return tuple(sorted(((m, c) for m, c in d.items() if c != 0), key=lambda mc: skey(mc[0])))
+    return tuple(sorted(((m, _Coef(c)) for m, c in d.items() if c != 0), key=lambda mc: skey(mc[0])))
 
 
 def poly_const(c) -> Poly:
-    c = F(c)
+    c = _Coef(c)
     return ((ONE_M, c),) if c != 0 else ()
 
 
+_Q1 = _Coef(1)
+
+
 def poly_atom(a: Term) -> Poly:
-    return ((((a, 1),), F(1)),)
+    return ((((a, 1),), _Q1),)
 
 
 def poly_add(p: Poly, q: Poly) -> Poly:
@@ -163,7 +184,7 @@ def _normalise_ratio(P: Poly, Q: Poly) -> Tuple[Poly, Poly]:
                 P = _poly_from_dict({_mono_mul(m, ((a, -common),)): c for m, c in P})
                 mq_d[a] = e - common
         mq2 = tuple(sorted(((a, e) for a, e in mq_d.items() if e != 0), key=lambda ae: skey(ae[0])))
-        Q = ((mq2, F(1)),)
+        Q = ((mq2, _Q1),)
         if mq2 == ONE_M:
             return P, POLY_ONE
         return P, Q
